@@ -113,6 +113,18 @@ def run(ck, w):
     else:
         ck.ok(o, "%d informational debug-only overflow site(s)" % len(info), instances=len(T.heap))
     ck.note("debug-build-only arithmetic on decoded lengths that bounds nothing (informational): %s" % sorted({"%s@%s" % (s.body.root, s.line) for s in info})[:20])
+    # Iterator::sum / product over decoded numbers overflow-check inside core (inherited from this crate's
+    # profile): same class, informational
+    sums = []
+    for n_ in sorted(scope):
+        b_ = lib.bodies.get(n_)
+        if b_ is None or not b_.file.startswith("src/") or SKIP_FILES.search(b_.file) or rules.is_derive_body(b_):
+            continue
+        for e_ in b_.events:
+            if e_.bb in b_.live and re.search(r"Iterator::(sum|product)$", e_.callee or "") and e_.args:
+                if taint.SRC in T._read(b_, e_.args[0], b_.kind in ("closure", "coroutine"))[0]:
+                    sums.append("%s@%s" % (b_.root, e_.line))
+    ck.note("debug-build-only sum()/product() over decoded numbers (informational): %s" % sorted(set(sums))[:10])
 
     # ---- 2. no panic on read/decoding results --------------------------------------------------------------
     o = ck.ob("C10.2", "no read/decoding result on the read paths is unwrapped")
